@@ -104,7 +104,8 @@ def build(sc, seed):
             sw[rng.choice(n, max(1, n // 5), replace=False)] = 0.0
         dfd = {"kind": d, "sample_weights": sw.tolist()}
     elif d == "Huber":
-        dfd = {"kind": d, "delta": float(np.std(y) * 0.7 + 0.1)}
+        # either most samples in the quadratic zone, or most of them beyond delta (where the loss is linear)
+        dfd = {"kind": d, "delta": float(np.std(y) * 0.7 + 0.1) if rng.random() < 0.5 else float(np.std(y) * 0.1 + 0.02)}
     elif d == "CoxEfron":
         dfd = {"kind": "Cox", "use_efron": True}
     elif d == "Cox":
